@@ -113,6 +113,9 @@ class ThrottleDriver:
             self.loop.quiesce()
             self.now += 1
             self.loop.advance(T0 + self.now * self.unit)
+        elif name == "Jump":
+            self.now += 2
+            self.loop.advance(T0 + self.now * self.unit)      # the instant in between is skipped: its timers fire late
         elif name == "Tick":
             self.now += 1
             self.loop.advance(T0 + self.now * self.unit)
@@ -148,7 +151,7 @@ def gen_trace(rnd, ncalls=12):
             started = {s["c"] for s in d.starts}
             running = [c for c in started if d.res[c - 1] == "none" and c in d.gates and not d.gates[c].done()]
             waiting = [c for c in range(1, arrived + 1) if c not in started and d.res[c - 1] == "none"]
-            ch = [("Tick", [])] * 3
+            ch = [("Tick", [])] * 3 + [("Jump", [])]
             if arrived < ncalls:
                 ch += [("Arrive", [arrived + 1])] * (6 if rnd.random() < 0.5 else 2)
                 ch += [("TickArrive", [arrived + 1])] * 2
@@ -203,7 +206,7 @@ def run(rep, work, tier, seed):
     leg_r(rep, work, SPEC, f"conf_{tier}", cfg_text(c, invariants=INVS), ThrottleDriver, internal=INTERNAL)
     # calls arriving at the very instant a window slot frees, with a sleeper waking and another call queued on the lock
     late = dict(NCalls=5, Limits=[2], Periods=[1] if tier == "quick" else [1, 2], MaxT=1 if tier == "quick" else 2, Late=True, Bug="none")
-    leg_m(rep, work, SPEC, f"late_mc_{tier}", cfg_text(late, invariants=INVS), expect_actions=["TickArrive", "Wake", "Decide"])
+    leg_m(rep, work, SPEC, f"late_mc_{tier}", cfg_text(late, invariants=INVS), expect_actions=["TickArrive", "Jump", "Wake", "Decide"])
     leg_r(rep, work, SPEC, f"late_conf_{tier}", cfg_text(late, invariants=INVS), ThrottleDriver, internal=INTERNAL)
     # the decorator used bare (`@throttle`: limit 1, period 1 second)
     bare = dict(NCalls=3, Limits=[1], Periods=[1], MaxT=3, Late=False, Bug="none")
@@ -215,7 +218,7 @@ def run(rep, work, tier, seed):
     leg_t_gen(rep, work, SPEC, f"trace_{tier}", traces,
               variables=["limit", "period", "pform", "now", "entries", "lockq", "pc", "wake", "arrived", "starts", "res", "obs"],
               constants=dict(NCalls=12, Limits="1..4", Periods="{2, 3, 5}", MaxT=100000, Bug='"none"', Late="TRUE"),
-              config_vars=["limit", "period", "pform"], actions=dict(Arrive=1, TickArrive=1, Tick=0, FnEnd=2, Cancel=1),
+              config_vars=["limit", "period", "pform"], actions=dict(Arrive=1, TickArrive=1, Tick=0, Jump=0, FnEnd=2, Cancel=1),
               internal="(M!Internal \\/ M!Settle)", quiet="M!Rest",
               invariants=["RateBound", "ArrivalOrder", "NoNeedlessDelay", "Transparent"])
     rep.assumptions += [
